@@ -11,6 +11,7 @@ CONSTANTS
   UseG92 = FALSE
   UseAt = TRUE
   UseHome = FALSE
+  UseArcs = FALSE
   Profile = "frames"
   MaxRegs = 2
 CONSTRAINT Bound
